@@ -40,6 +40,30 @@ class Deriv:
     def binders(self, pat):
         return [x.get("lid") for x in walk(pat) if x["k"] == "P.Binding"]
 
+    def tag_fields(self, tree, adt_suffix, fields):
+        """bindings introduced under field `f` of a struct pattern over `adt_suffix` get the tag f (syntax-field
+        provenance that does not depend on what the locals are called)"""
+        self.tagged = getattr(self, "tagged", {})
+        for n in walk(tree["body"]):
+            if n["k"] == "P.Struct" and (n.get("def") or "").endswith(adt_suffix):
+                for fl in n["fields"]:
+                    if fl["name"] in fields:
+                        for b in walk(fl["pat"]):
+                            if b["k"] == "P.Binding":
+                                self.tagged.setdefault(b.get("lid"), set()).add(fl["name"])
+
+    def tags(self, expr, depth=0, seen=None):
+        seen = seen or set()
+        out = set()
+        if expr is None:
+            return out
+        for name, lid in lids_in(expr):
+            out |= getattr(self, "tagged", {}).get(lid, set())
+            if lid in self.src and lid not in seen and depth < 8:
+                for e in self.src[lid]:
+                    out |= self.tags(e, depth + 1, seen | {lid})
+        return out
+
     def roots(self, expr, depth=0, seen=None):
         seen = seen or set()
         out = set()
@@ -163,33 +187,44 @@ def run(cx, rep):
                     e = struct_field(st[0], payload[0])
                     ok = e is not None and payload[1] in D.roots(e) and "local" not in D.roots(e)
                 rep.ob("C09.1", "%s/original-name" % fname, ok, "Named.original_name must derive from `%s`" % payload[1], fs[0].loc())
-    ne = [f for f in F.fns.values() if f.name == "visit_named_export" and (f.impl_self or "").startswith("swc_tools::bind_exports::ImportsVisitor")]
-    if len(ne) != 1:
-        rep.anchor_missing("C09.1", "visit_named_export")
-    else:
-        tree = F.hir[ne[0].id]
+    # `export { A as B }` / `export { A as B } from "./m"`: located by the constructions themselves, in any function of
+    # the binder's file; provenance is by syntax field of swc's ExportNamedSpecifier { orig, exported }
+    befile = [f for f in F.fns.values() if (f.file or "").endswith("swc_tools/bind_exports.rs") and f.id in F.hir and f.kind != "Closure"]
+    if not befile:
+        rep.anchor_missing("C09.1", "functions of swc_tools/bind_exports.rs")
+    ue_all, so_all = [], []
+    for f in sorted(befile, key=lambda x: x.id):
+        tree = F.hir[f.id]
         D = Deriv(tree)
-        ue = [n for n in walk(tree["body"]) if n["k"] == "Struct" and (n.get("def") or "").endswith("UnresolvedExport")]
-        rep.ob("C09.1", "unresolved-export/site", len(ue) == 1, "expected one UnresolvedExport construction", ne[0].loc())
-        for st in ue:
-            rn = D.roots(struct_field(st, "name"))
-            rr = D.roots(struct_field(st, "renamed"))
-            rep.ob("C09.1", "unresolved-export/name-is-orig", "id" in rn and "ex" not in rn and "exported" not in rn,
-                   "`export {A as B}`: UnresolvedExport.name must be the local (original) name A (roots %s)" % sorted(rn), "%s:%s" % (ne[0].file, st["line"]),
-                   sample={"name_from": sorted(rn), "renamed_from": sorted(rr)})
-            rep.ob("C09.1", "unresolved-export/renamed-is-exported", "exported" in rr or "ex" in rr,
-                   "`export {A as B}`: UnresolvedExport.renamed must derive from the exported name B (roots %s)" % sorted(rr), "%s:%s" % (ne[0].file, st["line"]))
-        so = [n for n in walk(tree["body"]) if n["k"] == "Struct" and (n.get("def") or "").endswith("SymbolExport::SomethingOfOtherFile")]
-        rep.ob("C09.1", "reexport-from/site", len(so) == 1, "expected one SomethingOfOtherFile construction in visit_named_export", ne[0].loc())
-        for st in so:
-            rs = D.roots(struct_field(st, "something"))
-            rep.ob("C09.1", "reexport-from/something-is-orig", "id" in rs and "ex" not in rs,
-                   "`export {A as B} from`: the name looked up in the other module must be A (roots %s)" % sorted(rs), "%s:%s" % (ne[0].file, st["line"]))
-            # the enclosing insert_unknown key derives from exported-or-orig
-            for c in walk(tree["body"]):
-                if c["k"] == "MethodCall" and c["method"] == "insert_unknown" and any(x is st for x in walk(c["args"][1])):
-                    rk = D.roots(c["args"][0])
-                    rep.ob("C09.1", "reexport-from/key-is-exported", ("exported" in rk or "ex" in rk), "`export {A as B} from`: the export must be registered under B (roots %s)" % sorted(rk), "%s:%s" % (ne[0].file, c["line"]))
+        D.tag_fields(tree, "ExportNamedSpecifier", ("orig", "exported"))
+        # one level of private helpers: a call result carries the tags of its arguments (Deriv.roots/tags follow
+        # every local mentioned in the initialiser, call arguments included)
+        for n in walk(tree["body"]):
+            if n["k"] == "Struct" and (n.get("def") or "").endswith("UnresolvedExport"):
+                ue_all.append((f, D, n))
+            # (re-exports built from export specifiers; the resolution of unresolved exports against imports builds the
+            # same variant from an ImportReference and is covered by the parse_and_bind clauses below)
+            if n["k"] == "Struct" and (n.get("def") or "").endswith("SymbolExport::SomethingOfOtherFile") and getattr(D, "tagged", {}):
+                so_all.append((f, D, n, tree))
+    rep.ob("C09.1", "unresolved-export/site", len(ue_all) == 1, "expected one UnresolvedExport construction in the export binder (found %d)" % len(ue_all), befile[0].loc() if befile else None)
+    for f, D, st in ue_all:
+        tn = D.tags(struct_field(st, "name"))
+        tr = D.tags(struct_field(st, "renamed"))
+        rep.ob("C09.1", "unresolved-export/name-is-orig", "orig" in tn and "exported" not in tn,
+               "`export {A as B}`: UnresolvedExport.name must be the local (original) name A (derives from specifier fields %s)" % sorted(tn), "%s:%s" % (f.file, st["line"]),
+               sample={"name_from": sorted(tn), "renamed_from": sorted(tr)})
+        rep.ob("C09.1", "unresolved-export/renamed-is-exported", "exported" in tr,
+               "`export {A as B}`: UnresolvedExport.renamed must derive from the exported name B (derives from specifier fields %s)" % sorted(tr), "%s:%s" % (f.file, st["line"]))
+    rep.ob("C09.1", "reexport-from/site", len(so_all) == 1, "expected one SomethingOfOtherFile construction in the export binder (found %d)" % len(so_all), befile[0].loc() if befile else None)
+    for f, D, st, tree in so_all:
+        ts_ = D.tags(struct_field(st, "something"))
+        rep.ob("C09.1", "reexport-from/something-is-orig", "orig" in ts_ and "exported" not in ts_,
+               "`export {A as B} from`: the name looked up in the other module must be A (derives from specifier fields %s)" % sorted(ts_), "%s:%s" % (f.file, st["line"]))
+        # the enclosing insert_unknown key derives from the exported name
+        for c in walk(tree["body"]):
+            if c["k"] == "MethodCall" and c["method"] == "insert_unknown" and any(x is st for x in walk(c["args"][1])):
+                tk = D.tags(c["args"][0])
+                rep.ob("C09.1", "reexport-from/key-is-exported", "exported" in tk, "`export {A as B} from`: the export must be registered under B (derives from specifier fields %s)" % sorted(tk), "%s:%s" % (f.file, c["line"]))
     pb = [f for f in F.fns.values() if f.name == "parse_and_bind" and f.crate != WASM]
     if len(pb) != 1:
         rep.anchor_missing("C09.1", "parse_and_bind")
@@ -380,6 +415,36 @@ def run(cx, rep):
         rep.ob("C09.6", "ts_identifier/variants", carrying <= seen_v,
                "TypeAddress::ts_identifier decides whether a printed name needs its file prefix by looking at the other names, but ignores the %s variant(s) of RuntypeName, which also carry a file address: same-named declarations of different files then print the same identifier and collapse" % sorted(carrying - seen_v),
                tis[0].loc(), sample={"address_carrying_variants": sorted(carrying), "considered": sorted(seen_v)})
+    # ---------------------------------------------------------------- C09.7
+    rep.rule("C09.7", "the file part of a disambiguated name is cut at a LOWER bound of the prefixes shared with the other files")
+    # by role: fn(&BffFileName, &[TypeAddress]) -> String.  The cut index must not exceed the common prefix with ANY other
+    # same-named file, i.e. it is a min-reduction over them; a max (or a first/last element) leaves two files with the
+    # same suffix and their types collapse into one definition.
+    cut = [f for f in F.fns.values() if f.id in F.hir and f.kind != "Closure" and len(f.inputs or []) == 2 and "BffFileName" in f.inputs[0]
+           and "TypeAddress" in f.inputs[1] and f.inputs[1].startswith("&[") and (f.output or "").endswith("String")]
+    if len(cut) != 1:
+        rep.anchor_missing("C09.7", "the suffix function fn(&BffFileName, &[TypeAddress]) -> String; found %d" % len(cut))
+    else:
+        nodes = [n for n, _o in walk_inlined(F, cut[0].id, private_only=True)]
+        mins = [n for n in nodes if (n["k"] == "MethodCall" and n["method"] in ("min", "min_by", "min_by_key")) or (n["k"] == "Call" and (n.get("callee") or "").endswith("cmp::min"))]
+        maxs = [n for n in nodes if (n["k"] == "MethodCall" and n["method"] in ("max", "max_by", "max_by_key", "last", "next", "first")) or (n["k"] == "Call" and (n.get("callee") or "").endswith("cmp::max"))]
+        # hand-written reduction: `if new < acc { acc = new }`
+        manual = []
+        for n in nodes:
+            if n["k"] == "If" and n["cond"]["k"] == "Binary" and n["cond"]["op"] in ("Lt", "Gt", "Le", "Ge"):
+                l, r = n["cond"]["l"], n["cond"]["r"]
+                asg = [x for x in walk(n["then"]) if x["k"] == "Assign" and x["l"]["k"] == "Path" and x["l"].get("res") == "local"]
+                if len(asg) == 1 and l["k"] == "Path" and r["k"] == "Path":
+                    acc = asg[0]["l"].get("lid")
+                    newv = [x.get("lid") for x in walk(asg[0]["r"]) if x["k"] == "Path" and x.get("res") == "local"]
+                    if acc in (l.get("lid"), r.get("lid")) and newv and newv[0] in (l.get("lid"), r.get("lid")):
+                        less = n["cond"]["op"] in ("Lt", "Le")
+                        new_on_left = l.get("lid") == newv[0]
+                        manual.append("min" if (less == new_on_left) else "max")
+        kinds_ = (["min"] * len(mins)) + (["max"] * len([m_ for m_ in maxs if m_["k"] == "Call" or m_["method"].startswith("max")])) + manual
+        rep.ob("C09.7", "cut-is-min", bool(kinds_) and all(k == "min" for k in kinds_),
+               "%s reduces the shared-prefix lengths with %s: the cut must be the MINIMUM over all same-named files, otherwise two of them keep the same suffix" % (cut[0].id, kinds_ or "no recognisable reduction"),
+               cut[0].loc(), sample={"reduction": kinds_})
     # ---------------------------------------------------------------- C09.4
     rep.rule("C09.4", "lossy mangling of file names into identifiers is checked for collisions")
     mang = [f for f in F.fns.values() if f.name == "to_valid_ts_identifier" or f.name == "ts_identifier"]
